@@ -11,7 +11,7 @@ LEVEL = 'exploration'
 SHARDS = {'quick': 4, 'thorough': 16}
 RULE = (
     'Planted / noisy datasets (both master curves assembled, curvature set; 5-400 levels) x both parameterisations '
-    '(spline with 4-9 specific-yield knots and 2-7 conductivity knots, random values printed with up to 17 '
+    '(spline with 4-14 specific-yield knots and 2-12 conductivity knots, random values printed with up to 17 '
     'significant digits; PEATCLSM inside the PEST bounds) x {rise, curves}: `spowtd pestfiles ... tpl|ins|pst` and '
     '`spowtd simulate rise|recession [--observations]` are run through the CLI entry point and their texts are '
     'interpreted by an own mini-interpreter of the PEST formats.  Checked: NPAR/NOBS/NPARGP/NPRIOR/NOBSGP against '
@@ -37,6 +37,7 @@ REQUIRED = {
         'template-round-trips': 16,
         'kind:spline/rise': 2, 'kind:spline/curves': 2, 'kind:peatclsm/rise': 2, 'kind:peatclsm/curves': 2,
         'targeted-datasets': 1,
+        'spline-sets-with-10+-knots': 2,
     }
     for tier in ('quick', 'thorough')
 }
@@ -111,6 +112,8 @@ def check_file_set(ctx, db, params, pfile, kind, what, case, tag):
         sim_obs += o
         table += [(curve,) + tuple(r) for r in yaml.safe_load(tb)[1:]]
     rec.hit('kind:{}/{}'.format(kind, what))
+    if kind == 'spline' and (len(params['specific_yield']['sy_knots']) >= 10 or len(params['transmissivity']['K_knots_km_d']) >= 10):
+        rec.hit('spline-sets-with-10+-knots')
     # ---- control file
     try:
         pst = pest.pst_parse(texts['pst'])
@@ -206,8 +209,8 @@ def check_file_set(ctx, db, params, pfile, kind, what, case, tag):
 
 def random_params(rng, kind, zlo, zhi):
     if kind == 'spline':
-        n = rng.randint(4, 9)
-        m = rng.randint(2, 7)
+        n = rng.choice([rng.randint(4, 9), rng.randint(10, 14)])
+        m = rng.choice([rng.randint(2, 7), rng.randint(10, 12)])
         psy = {'type': 'spline', 'zeta_knots_mm': sorted(round(rng.uniform(zlo - 100, zhi + 50), rng.choice([1, 2, 4])) for _ in range(n)),
                'sy_knots': [rng.choice([round(rng.uniform(0.01, 1.0), 4), rng.uniform(0.01, 1.0)]) for _ in range(n)]}
         while len(set(psy['zeta_knots_mm'])) < n:
